@@ -824,11 +824,20 @@ fn collect<'tcx>(tcx: TyCtxt<'tcx>, out_path: &str) {
     };
     let mut items: Vec<String> = Vec::new();
     let mut generic_roots: Vec<DefId> = Vec::new();
+    let mut closure_roots: Vec<DefId> = Vec::new();
     let mono_env = TypingEnv::fully_monomorphized();
 
     for ldid in tcx.mir_keys(()).iter() {
         let did = ldid.to_def_id();
         let kind = tcx.def_kind(did);
+        if matches!(kind, DefKind::Closure) {
+            // closures of generic functions are never reached through a monomorphic instance: dump them generically
+            let root = tcx.typeck_root_def_id(did);
+            if tcx.generics_of(root).requires_monomorphization(tcx) {
+                closure_roots.push(did);
+            }
+            continue;
+        }
         if !matches!(kind, DefKind::Fn | DefKind::AssocFn) {
             continue;
         }
@@ -912,6 +921,7 @@ fn collect<'tcx>(tcx: TyCtxt<'tcx>, out_path: &str) {
         cx.bodies.push(format!("B\t{}\t{}", key, s));
     }
     // generic roots: identity args, post-analysis env; callees resolved where possible
+    generic_roots.extend(closure_roots.iter().copied());
     for did in generic_roots {
         let path = with_no_trimmed_paths!(tcx.def_path_str(did));
         let key = format!("generic:{}", path);
